@@ -233,8 +233,9 @@ def _loop_guards(node):
 
 class Coll:
     """one producing site of a list: element expression, iteration variable(s), source, filter conjuncts"""
-    def __init__(self, elt, var, src, conj, node, loop):
+    def __init__(self, elt, var, src, conj, node, loop, guards=()):
         self.elt, self.var, self.src, self.conj, self.node, self.loop = elt, var, src, conj, node, loop
+        self.guards = list(guards)       # the dominating conditions themselves (for semantic evaluation)
 
 
 def _collected(func, name):
@@ -249,14 +250,14 @@ def _collected(func, name):
                 raise AnalysisError(f"{func.name}: {name} is built by a nested comprehension (outside the understood shapes)")
             g = val.generators[0]
             gs = [Guard(f, True, 'if', val) for f in g.ifs] + _cond_guards(node)
-            out.append(Coll(val.elt, g.target, g.iter, _conjuncts(gs), val, None))
+            out.append(Coll(val.elt, g.target, g.iter, _conjuncts(gs), val, None, gs))
     for n in _own_nodes(func):
         if _is_call(n, attr='append', nargs=1) and isinstance(n.func.value, ast.Name) and n.func.value.id == name:
             lp = enclosing(n, (ast.For,))
             if lp is not None and enclosing_func(lp) is not func:
                 lp = None
             out.append(Coll(n.args[0], lp.target if lp is not None else None, lp.iter if lp is not None else None,
-                            _conjuncts(_cond_guards(stmt_of(n))), n, lp))
+                            _conjuncts(_cond_guards(stmt_of(n))), n, lp, _cond_guards(stmt_of(n))))
     return out
 
 
@@ -1882,24 +1883,48 @@ def rule_textwave(repo):
          f"stored at: a sliced/filtered list leaves signals out of the record", ln.node)
     _chk(r, has_reset, m, cq, "literal entry 's.reset'", "s.reset is excluded by the collecting filter and must be added back explicitly "
          "(the printer takes the number of cycles from it)", ln.node)
-    cj = na.conj
-    okc = norm(_strip_wrappers(na.src)) == f'{top}._dsl.all_signals' and cj is not None and len(_bindings(C, NAMES)) == 1
-    extra = []
-    for p, t in (cj or []):
-        if p == 'pos' and norm(t) == f'{sv}.is_top_level_signal()':
-            continue
-        if isinstance(t, ast.Compare) and len(t.ops) == 1 and norm(_res(t.left, t)) == f'{sv}.get_field_name()':
-            c0 = t.comparators[0]
-            ne = (isinstance(t.ops[0], (ast.NotEq, ast.NotIn)) and p == 'pos') or (isinstance(t.ops[0], (ast.Eq, ast.In)) and p == 'not')
-            if ne and isinstance(c0, ast.Constant) and c0.value in ('clk', 'reset'):
-                continue
-            if ne and isinstance(c0, (ast.Tuple, ast.List, ast.Set)) and \
-                    all(isinstance(x, ast.Constant) and x.value in ('clk', 'reset') for x in c0.elts):
-                continue
-        extra.append(('' if p == 'pos' else 'not ') + norm(t))
-    _chk(r, okc and not extra, m, cq, f"for {sv} in {norm(na.src)}: collected under {[('' if p == 'pos' else 'not ') + norm(t) for p, t in (cj or [])]}",
-         f"all signals of the design must be collected, filtered only by is_top_level_signal() and the names clk/reset"
-         f"{': `' + extra[0] + '` drops further signals from the record' if extra else ''}", na.node)
+    # the filter is judged semantically: evaluated over field names x top-level-ness it must exclude exactly clk / reset
+    okc = norm(_strip_wrappers(na.src)) == f'{top}._dsl.all_signals' and len(_bindings(C, NAMES)) == 1
+    probe_names = ("clk", "reset", "set", "res", "k", "clkreset", "data", "")
+    wrong, outside = [], None
+
+    def leaf_for(name, istop):
+        def leaf(e):
+            if isinstance(e, ast.Name) and isinstance(e.ctx, ast.Load) and e.id != sv:
+                v_ = _unique_value(e.id, e)
+                if v_ is not None:
+                    return Evaluator({}, leaf=leaf).ev(v_)
+            if _is_call(e, attr='get_field_name', nargs=0) and norm(e.func.value) == sv:
+                return name
+            if _is_call(e, attr='is_top_level_signal', nargs=0) and norm(e.func.value) == sv:
+                return istop
+            if isinstance(e, (ast.List, ast.Set, ast.Tuple)) and all(isinstance(x, ast.Constant) for x in e.elts):
+                return tuple(x.value for x in e.elts)
+            return NotImplemented
+        return leaf
+    for name in probe_names:
+        try:
+            r.evaluations += 1
+            inc = all(bool(Evaluator({}, leaf=leaf_for(name, True)).ev(g_.test)) == g_.polarity for g_ in na.guards)
+        except AnalysisError as ex:
+            outside = str(ex)
+            break
+        except Exception as ex:
+            outside = f"{type(ex).__name__}: {ex}"
+            break
+        if inc != (name not in ("clk", "reset")):
+            wrong.append((name, inc))
+    shown = ' and '.join(repr(g_) for g_ in na.guards) or 'no filter'
+    if outside is not None:
+        why = f"the filter depends on something other than the field name and is_top_level_signal() ({outside}): further signals are " \
+              f"dropped from the record"
+    elif wrong:
+        why = "; ".join(f"a top-level signal named {n!r} is {'recorded' if inc else 'left out'}" for n, inc in wrong[:3]) + \
+            " -- only signals named exactly clk / reset may be left out (s.reset is added back explicitly)"
+    else:
+        why = "all signals of the design must be collected"
+    _chk(r, okc and outside is None and not wrong, m, cq, f"for {sv} in {norm(na.src)}: collected under {shown}",
+         "all signals of the design must be collected, filtered only by is_top_level_signal() and the names clk/reset: " + why, na.node)
     # the printer reads the record it is given, through bound names only
     pr = [n for n in ast.walk(call) if isinstance(n, ast.Assign) and _is_call(n.value) and isinstance(n.value.func, ast.Attribute)
           and norm(n.value.func.value) in ('self', 's') and any(isinstance(a, ast.Name) and a.id == dvar for a in n.value.args)]
@@ -2452,6 +2477,8 @@ MUTANTS = [
     # --- text wave
     _m('textwave-lines-outside-function', TW, '"\\n  ".join(wav_srcs)', '"\\n".join(wav_srcs)', 'R-C16-textwave'),
     _m('textwave-filter-extra', TW, 'x.get_field_name() != "reset":', 'x.get_field_name() != "reset" and x._dsl.level < 2:', 'R-C16-textwave'),
+    _m('textwave-filter-substring', TW, 'x.get_field_name() != "clk" and x.get_field_name() != "reset":', 'x.get_field_name() not in ( "clk" "reset" ):',
+       'R-C16-textwave'),
     _m('textwave-records-hex', TW, ".to_bits().bin() )", ".to_bits().hex() )", 'R-C16-textwave'),
     _m('textwave-not-packed', TW, "{x}.to_bits().bin()", "{x}.bin()", 'R-C16-textwave'),
     _m('textwave-names-sliced', TW, "sorted(signal_names):", "sorted(signal_names)[1:]:", 'R-C16-textwave'),
@@ -2539,6 +2566,11 @@ EQUIV = [
        "      new_net = [ y for y in net if not isinstance(y, Const) and y.is_top_level_signal() ]\n      for x in new_net:\n        if True:\n          if repr(x)"),
     _m('stamp-helper-local', VCD, "next_neg_edge = 100 * vcd_sim_ncycles + 50", "cyc = vcd_sim_ncycles\n      next_neg_edge = 100 * cyc + 50"),
     _m('flush-by-method-call', VCD, "file=vcd_file, flush=True )\n      vcd_sim_ncycles += 1", "file=vcd_file )\n      vcd_sim_ncycles += 1\n      vcd_file.flush()"),
+    _m('textwave-filter-de-morgan', TW, 'x.get_field_name() != "clk" and x.get_field_name() != "reset":',
+       'not ( x.get_field_name() == "clk" or x.get_field_name() == "reset" ):'),
+    _m('textwave-filter-in-set-flipped', TW,
+       "      if x.is_top_level_signal() and x.get_field_name() != \"clk\" and x.get_field_name() != \"reset\":\n        signal_names.append( (x._dsl.level, repr(x)) )\n",
+       "      if not x.is_top_level_signal() or x.get_field_name() in {\"clk\", \"reset\"}:\n        pass\n      else:\n        signal_names.append( (x._dsl.level, repr(x)) )\n"),
     _m('dump-guard-flipped', PREP, "    if top.has_metadata( VcdGenerationPass.vcd_func ):\n      ret.append( top.get_metadata( VcdGenerationPass.vcd_func ) )\n",
        "    if not top.has_metadata( VcdGenerationPass.vcd_func ):\n      pass\n    else:\n      ret.append( top.get_metadata( VcdGenerationPass.vcd_func ) )\n"),
     _m('vcd-str-conditional-expression', BITS,
